@@ -81,6 +81,32 @@ func (h *hist) attenuateRandom() int {
 	return t
 }
 
+// deepFork builds a linear chain of the given depth and then derives several
+// children from its tip (optionally after the tip went over the wire): the
+// shape in which siblings share the most state with their parent.
+func (h *hist) deepFork(depth, children int, reload bool) []int {
+	t := h.issue()
+	k := h.tokKey[t]
+	for i := 0; i < depth; i++ {
+		t = h.attenuate(t, h.g.Block(2, 1, 1))
+		h.toks = append(h.toks, t)
+		h.honest = append(h.honest, t)
+		h.tokKey[t] = k
+	}
+	if reload {
+		t = h.receive(h.send(t), true)
+	}
+	var out []int
+	for i := 0; i < children; i++ {
+		c := h.attenuate(t, h.g.Block(2, 1, 1))
+		h.toks = append(h.toks, c)
+		h.honest = append(h.honest, c)
+		h.tokKey[c] = k
+		out = append(out, c)
+	}
+	return out
+}
+
 func (h *hist) sealRandom() int {
 	p := h.pick(h.honest)
 	t := h.seal(p)
@@ -174,6 +200,9 @@ func genC01(r *rand.Rand, run int, tier string) *vm.Plan {
 		for k := r.Intn(4); k > 0; k-- {
 			h.attenuateRandom()
 		}
+	}
+	if r.Intn(4) == 0 { // a deep chain forked at its tip: every sibling must still verify
+		h.deepFork(2+r.Intn(6), 2+r.Intn(2), r.Intn(2) == 0)
 	}
 	if r.Intn(2) == 0 {
 		h.sealRandom()
@@ -284,10 +313,13 @@ var sealMuts = []string{"seal_sig_flip", "last_key_flip", "block_flip", "sig_fli
 	"forge_tail", "forge_tail", "proof_crafted", "rekey", "replace_attacker", "key_flip"}
 
 func genC09(r *rand.Rand, run int, tier string) *vm.Plan {
-	h := newHist(r, 1, false)
+	h := newHist(r, 1, r.Intn(2) == 0)
 	t := h.issue()
 	for k := []int{0, 0, 1, 2, 3, 5}[r.Intn(6)]; k > 0; k-- {
-		t = h.attenuateRandom()
+		t = h.attenuate(t, h.g.Block(3, 2, 2)) // a linear chain: every block of it is in the sealed token
+		h.toks = append(h.toks, t)
+		h.honest = append(h.honest, t)
+		h.tokKey[t] = h.issuers[0]
 	}
 	key := h.tokKey[t]
 	s := h.seal(t)
@@ -299,6 +331,13 @@ func genC09(r *rand.Rand, run int, tier string) *vm.Plan {
 		az := az
 		for _, x := range []int{t, s, rs} {
 			h.add(vm.Op{K: "verify", A: x, KS: &vm.KeySel{Key: key}, Az: &az, Lim: &vm.Lim{MaxDurNs: 1e9}})
+		}
+	}
+	// the same root key must also be found through the token's root key id
+	if id := h.ids[key]; id != nil {
+		az := h.az[0]
+		for _, x := range []int{t, s, rs} {
+			h.add(vm.Op{K: "verify", A: x, KS: &vm.KeySel{UseMap: true, Map: []vm.KeyEntry{{ID: *id, Key: key}}}, Az: &az, Lim: &vm.Lim{MaxDurNs: 1e9}})
 		}
 	}
 	// neither extended nor sealed again: fresh and reloaded
@@ -412,6 +451,9 @@ func init() {
 func genC17(r *rand.Rand, run int, tier string) *vm.Plan {
 	h := newHist(r, 1+r.Intn(2), r.Intn(2) == 0)
 	t := h.issue()
+	if r.Intn(3) == 0 { // deep chain, forked at its tip (fresh or reloaded)
+		h.deepFork(2+r.Intn(6), 2+r.Intn(2), r.Intn(2) == 0)
+	}
 	// identical twins: same content issued twice, appended twice to the same parent and to different parents
 	same := h.g.Block(2, 1, 1)
 	for i := 0; i < 2+r.Intn(5); i++ {
